@@ -49,9 +49,17 @@ class Sched:
             if not self.done[1 - tid]:
                 self.sems[1 - tid].release()
 
-    def run(self, fn0, fn1, timeout=60):
+    def run(self, fn0, fn1, timeout=60, copy_context=False):
         out = [None, None]
-        ts = [threading.Thread(target=self._body, args=(i, f, out), daemon=True) for i, f in enumerate((fn0, fn1))]
+        if copy_context:
+            # threads started the way asyncio.to_thread / run_in_executor start them: inside a copy of the
+            # starting thread's contextvars context
+            import contextvars
+            ctxs = [contextvars.copy_context(), contextvars.copy_context()]
+            ts = [threading.Thread(target=ctxs[i].run, args=(self._body, i, f, out), daemon=True)
+                  for i, f in enumerate((fn0, fn1))]
+        else:
+            ts = [threading.Thread(target=self._body, args=(i, f, out), daemon=True) for i, f in enumerate((fn0, fn1))]
         for t in ts:
             t.start()
         self.sems[0].release()
